@@ -74,7 +74,67 @@ canary('long/short system built with the long-only sizer', QuantTradingSystem, '
 canary('submit_orders ignored', QuantTradingSystem, '_initialise_models', 'submit_orders=self.submit_orders', 'submit_orders=False')(qts_wiring)
 
 
-@harness('BacktestTradingSession.__init__', props=['C08', 'C14'], layer='L4', functions=WIRING_FUNCS)
+class _Frame:
+    """stands for a data source's price table (any object the session must leave alone); it tolerates being sliced,
+       compared and re-indexed - every such operation yields ANOTHER object, so a replaced table is noticed"""
+
+    def __getattr__(self, name):
+        if name.startswith('__'):
+            raise AttributeError(name)
+        return _Frame()
+
+    def __getitem__(self, k):
+        return _Frame()
+
+    def __call__(self, *a, **k):
+        return _Frame()
+
+    def _cmp(self, other):
+        return _Frame()
+    __lt__ = __le__ = __gt__ = __ge__ = _cmp
+
+    def __bool__(self):
+        return True
+
+    def __iter__(self):
+        return iter(())
+
+    def __len__(self):
+        return 0
+
+
+class _GivenSource:
+    def __init__(self):
+        self.frames0 = {'EQ:A': _Frame(), 'EQ:B': _Frame()}
+        self.asset_bid_ask_frames = dict(self.frames0)
+        self.asset_bar_frames = dict(self.frames0)
+
+
+class _GivenHandler:
+    """the caller's data handler: the session may keep a reference to it and nothing else"""
+
+    def __init__(self):
+        self.src = _GivenSource()
+        self.sources0 = [self.src]
+        self.data_sources = list(self.sources0)
+        self.attrs0 = set(self.__dict__) | {'attrs0'}
+
+    def untouched(self):
+        s = self.src
+        return (self.data_sources == self.sources0 and set(self.__dict__) == self.attrs0
+                and all(d == s.frames0 and all(d[k] is s.frames0[k] for k in d) for d in (s.asset_bid_ask_frames, s.asset_bar_frames)))
+
+
+class _Uni:
+    def __init__(self, assets):
+        self.assets, self.queries = assets, []
+
+    def get_assets(self, dt):
+        self.queries.append(dt)
+        return list(self.assets)
+
+
+@harness('BacktestTradingSession.__init__', props=['C08', 'C14'], also=['C12', 'C13', 'C18', 'C06', 'C01'], layer='L4', functions=WIRING_FUNCS)
 def session_wiring(c):
     """the session wires: exchange; the given data handler; a broker holding initial_cash in ONE portfolio (master account
        emptied into it) with the given fee model; a clock without pre/post-market events over [start, end]; the schedule class
@@ -85,9 +145,11 @@ def session_wiring(c):
     c.assume(GT(cash, 0))
     buf = c.real('cash_buffer_percentage', lambda r: r.choice([0.0, 0.05]))
     c.assume(AND(GE(buf, 0), LE(buf, 1)))
-    uni, alpha, dh, fm = object(), object(), object(), PercentFeeModel(0.001, 0.0)
-    kinds = {'buy_and_hold': BuyAndHoldRebalance(start).rebalances, 'daily': DailyRebalance(start, end).rebalances,
-             'weekly': WeeklyRebalance(start, end, 'WED').rebalances, 'end_of_month': EndOfMonthRebalance(start, end).rebalances}
+    uni, alpha, dh, fm = object(), object(), _GivenHandler(), PercentFeeModel(0.001, 0.0)
+    # (copies taken at once: a schedule object is not trusted to keep its list to itself)
+    kinds = {'buy_and_hold': list(BuyAndHoldRebalance(start).rebalances), 'daily': list(DailyRebalance(start, end).rebalances),
+             'weekly': list(WeeklyRebalance(start, end, 'WED').rebalances), 'end_of_month': list(EndOfMonthRebalance(start, end).rebalances)}
+    built = {}
     for kind, want in kinds.items():
         kw = {'rebalance_weekday': 'WED'} if kind == 'weekly' else {}
         r, s = _try(lambda: BacktestTradingSession(start, end, uni, alpha, initial_cash=cash, rebalance=kind, long_only=True, fee_model=fm,
@@ -96,20 +158,66 @@ def session_wiring(c):
         c.ob(tag + 'constructed', r == 'ok')
         if r != 'ok':
             continue
+        built[kind] = s
         b = s.broker
-        c.ob(tag + 'schedule-is-the-named-rebalance-class-over-start-end', list(s.rebalance_schedule) == list(want))
+        c.ob(tag + 'schedule-is-the-named-rebalance-class-over-start-end', list(s.rebalance_schedule) == list(want), props=['C08', 'C14', 'C13'])
+        c.ob(tag + 'given-data-handler-and-its-sources-left-untouched', dh.untouched(), props=['C18', 'C08', 'C06'])
         c.ob(tag + 'broker-uses-the-given-fee-model-exchange-and-data-handler',
              AND(type(b) is SimulatedBroker, b.fee_model is fm, b.data_handler is dh, type(b.exchange) is SimulatedExchange, s.data_handler is dh))
         c.ob(tag + 'one-portfolio-funded-with-the-whole-initial-cash',
              AND(list(b.portfolios) == [s.portfolio_id], EQ(b.portfolios[s.portfolio_id].cash, cash), EQ(b.cash_balances['USD'], 0)), props=['C08', 'C01'])
         e = s.sim_engine
         c.ob(tag + 'clock-over-start-end-without-pre-or-post-market',
-             AND(type(e) is DailyBusinessDaySimulationEngine, e.starting_day == start, e.ending_day == end, e.pre_market is False, e.post_market is False))
+             AND(type(e) is DailyBusinessDaySimulationEngine, e.starting_day == start, e.ending_day == end, e.pre_market is False, e.post_market is False),
+             props=['C08', 'C14', 'C12'])
         q = s.qts
         c.ob(tag + 'trading-system-submits-orders-on-that-portfolio-with-the-given-buffer',
              AND(type(q) is QuantTradingSystem, q.submit_orders is True, q.broker is b, q.broker_portfolio_id == s.portfolio_id, q.universe is uni,
                  q.alpha_model is alpha, q.data_handler is dh, EQ(q.portfolio_construction_model.order_sizer.cash_buffer_percentage, buf)))
         c.ob(tag + 'starts-with-no-equity-points-or-allocations', AND(s.equity_curve == [], s.target_allocations == []))
+    # sessions built LATER leave the schedules of the earlier ones alone (all four are alive here)
+    for kind, s in built.items():
+        c.ob(kind + '/schedule-unchanged-by-sessions-built-later', list(s.rebalance_schedule) == kinds[kind], props=['C13', 'C14', 'C08'])
+    # a burn-in date (inside the range, with and without signals) changes neither the clock nor the schedule's range
+    burn = pd.Timestamp('2019-02-11 14:30:00', tz='UTC')
+    for sig in (None, object()):
+        r, s = _try(lambda: BacktestTradingSession(start, end, uni, alpha, signals=sig, initial_cash=cash, rebalance='daily', long_only=True, fee_model=fm,
+                                                   data_handler=dh, cash_buffer_percentage=buf, burn_in_dt=burn))
+        tag = 'burn-in/%s/' % ('signals' if sig is not None else 'no-signals')
+        c.ob(tag + 'constructed', r == 'ok')
+        if r == 'ok':
+            e = s.sim_engine
+            c.ob(tag + 'clock-still-over-start-end', AND(e.starting_day == start, e.ending_day == end, e.pre_market is False, e.post_market is False,
+                                                          s.burn_in_dt == burn), props=['C12', 'C14', 'C08', 'C16'])
+            c.ob(tag + 'schedule-still-over-start-end', list(s.rebalance_schedule) == kinds['daily'], props=['C13', 'C14', 'C08'])
+    # without a data handler the session builds ONE CSV source over the whole directory (every file, whatever the universe says)
+    import qstrader.trading.backtest as bt
+    made = []
+
+    class Src:
+        def __init__(self, *a, **k):
+            made.append(('source', a, k))
+
+    class Hdl:
+        def __init__(self, *a, **k):
+            made.append(('handler', a, k))
+    saved = bt.CSVDailyBarDataSource, bt.BacktestDataHandler
+    bt.CSVDailyBarDataSource, bt.BacktestDataHandler = Src, Hdl
+    try:
+        u2 = _Uni(['EQ:A'])
+        r, s = _try(lambda: BacktestTradingSession(start, end, u2, alpha, initial_cash=cash, rebalance='daily', long_only=True,
+                                                   cash_buffer_percentage=buf))
+    finally:
+        bt.CSVDailyBarDataSource, bt.BacktestDataHandler = saved
+    srcs = [m for m in made if m[0] == 'source']
+    hdls = [m for m in made if m[0] == 'handler']
+    c.ob('default-data-handler/one-csv-source-over-every-file-of-the-directory',
+         AND(r == 'ok', len(srcs) == 1, len(hdls) == 1) and not srcs[0][2].get('csv_symbols') and len(srcs[0][1]) <= 2
+         and srcs[0][2].get('adjust_prices', True) is True, props=['C06', 'C08'])
+    if r == 'ok' and len(hdls) == 1:
+        ds = hdls[0][2].get('data_sources') or (hdls[0][1][1] if len(hdls[0][1]) > 1 else None)
+        c.ob('default-data-handler/handler-over-exactly-that-source', isinstance(ds, list) and len(ds) == 1 and isinstance(ds[0], Src) and s.data_handler.__class__ is Hdl,
+             props=['C06', 'C08'])
     r, _ = _try(lambda: BacktestTradingSession(start, end, uni, alpha, rebalance='fortnightly', long_only=True, data_handler=dh, cash_buffer_percentage=buf))
     c.ob('unknown-rebalance-kind-rejected/type-ValueError', r == 'ValueError')
     r, _ = _try(lambda: BacktestTradingSession(start, end, uni, alpha, rebalance='weekly', long_only=True, data_handler=dh, cash_buffer_percentage=buf))
